@@ -1006,4 +1006,99 @@ theorem inv_root {h0 h1 : Nat} (hv : ValidDeal h0 h1) : GameInv (root h0 h1) := 
     simp only [root]
     refine ⟨trivial, by simp, by omega, by simp⟩
 
+/-! ## the end of the hand -/
+
+theorem settle_fold0 (r0 r1 : Int) (s0 s1 : Nat) (st1 : Status) (h1 : st1 ≠ Status.folding)
+    (hr0 : 0 ≤ r0) (hlt : r0 < r1) :
+    RP.Showdown.settle [⟨r0, Status.folding, s0, 0⟩, ⟨r1, st1, s1, 0⟩] =
+      [⟨r0, Status.folding, s0, 0⟩, ⟨r1, st1, s1, r0 + r1⟩] := by
+  have hr1 : 0 < r1 := by omega
+  have hm : min r0 r1 = r0 := by omega
+  have hmx : max r0 0 = r0 := by omega
+  have hmx1 : max r1 0 = r1 := by omega
+  simp [RP.Showdown.settle, RP.Showdown.run, RP.Showdown.outer, RP.Showdown.inner, RP.Showdown.init, RP.Showdown.strongest, RP.Showdown.remaining, RP.Showdown.distribute, RP.Showdown.winnings, RP.Showdown.pay, RP.Showdown.isWinner,
+    RP.Showdown.isComplete, RP.Showdown.below, RP.Showdown.maxNat?, RP.Showdown.minInt?, RP.Showdown.sumInt, h1, hr1, hm, hmx, hmx1]
+
+theorem settle_fold1 (r0 r1 : Int) (s0 s1 : Nat) (st0 : Status) (h0 : st0 ≠ Status.folding)
+    (hr1 : 0 ≤ r1) (hlt : r1 < r0) :
+    RP.Showdown.settle [⟨r0, st0, s0, 0⟩, ⟨r1, Status.folding, s1, 0⟩] =
+      [⟨r0, st0, s0, r0 + r1⟩, ⟨r1, Status.folding, s1, 0⟩] := by
+  have hr0 : 0 < r0 := by omega
+  have hm : min r1 r0 = r1 := by omega
+  have hmx : max r0 0 = r0 := by omega
+  have hmx1 : max r1 0 = r1 := by omega
+  simp [RP.Showdown.settle, RP.Showdown.run, RP.Showdown.outer, RP.Showdown.inner, RP.Showdown.init, RP.Showdown.strongest, RP.Showdown.remaining, RP.Showdown.distribute, RP.Showdown.winnings, RP.Showdown.pay, RP.Showdown.isWinner,
+    RP.Showdown.isComplete, RP.Showdown.below, RP.Showdown.maxNat?, RP.Showdown.minInt?, RP.Showdown.sumInt, h0, hr0, hm, hmx, hmx1]
+
+theorem settle_show_gt (r : Int) (s0 s1 : Nat) (st0 st1 : Status) (h0 : st0 ≠ Status.folding)
+    (h1 : st1 ≠ Status.folding) (hr : 0 < r) (hs : s1 < s0) :
+    RP.Showdown.settle [⟨r, st0, s0, 0⟩, ⟨r, st1, s1, 0⟩] = [⟨r, st0, s0, r + r⟩, ⟨r, st1, s1, 0⟩] := by
+  have hmx : max r 0 = r := by omega
+  have hne : ¬ s1 = s0 := by omega
+  have hms : max s0 s1 = s0 := by omega
+  simp [RP.Showdown.settle, RP.Showdown.run, RP.Showdown.outer, RP.Showdown.inner, RP.Showdown.init, RP.Showdown.strongest, RP.Showdown.remaining, RP.Showdown.distribute, RP.Showdown.winnings, RP.Showdown.pay, RP.Showdown.isWinner,
+    RP.Showdown.isComplete, RP.Showdown.below, RP.Showdown.maxNat?, RP.Showdown.minInt?, RP.Showdown.sumInt, h0, h1, hr, hmx, hne, hms]
+
+theorem settle_show_lt (r : Int) (s0 s1 : Nat) (st0 st1 : Status) (h0 : st0 ≠ Status.folding)
+    (h1 : st1 ≠ Status.folding) (hr : 0 < r) (hs : s0 < s1) :
+    RP.Showdown.settle [⟨r, st0, s0, 0⟩, ⟨r, st1, s1, 0⟩] = [⟨r, st0, s0, 0⟩, ⟨r, st1, s1, r + r⟩] := by
+  have hmx : max r 0 = r := by omega
+  have hne : ¬ s0 = s1 := by omega
+  have hms : max s0 s1 = s1 := by omega
+  simp [RP.Showdown.settle, RP.Showdown.run, RP.Showdown.outer, RP.Showdown.inner, RP.Showdown.init, RP.Showdown.strongest, RP.Showdown.remaining, RP.Showdown.distribute, RP.Showdown.winnings, RP.Showdown.pay, RP.Showdown.isWinner,
+    RP.Showdown.isComplete, RP.Showdown.below, RP.Showdown.maxNat?, RP.Showdown.minInt?, RP.Showdown.sumInt, h0, h1, hr, hmx, hne, hms]
+
+theorem settle_show_eq (r : Int) (s : Nat) (st0 st1 : Status) (h0 : st0 ≠ Status.folding)
+    (h1 : st1 ≠ Status.folding) (hr : 0 < r) :
+    RP.Showdown.settle [⟨r, st0, s, 0⟩, ⟨r, st1, s, 0⟩] = [⟨r, st0, s, r⟩, ⟨r, st1, s, r⟩] := by
+  have hmx : max r 0 = r := by omega
+  have hd : Int.tdiv (r + r) 2 = r := by rw [Int.tdiv_eq_ediv_of_nonneg (by omega)]; omega
+  have hmd : Int.tmod (r + r) 2 = 0 := by rw [Int.tmod_eq_emod_of_nonneg (by omega)]; omega
+  simp [RP.Showdown.settle, RP.Showdown.run, RP.Showdown.outer, RP.Showdown.inner, RP.Showdown.init, RP.Showdown.strongest, RP.Showdown.remaining, RP.Showdown.distribute, RP.Showdown.winnings, RP.Showdown.pay, RP.Showdown.isWinner,
+    RP.Showdown.isComplete, RP.Showdown.below, RP.Showdown.maxNat?, RP.Showdown.minInt?, RP.Showdown.sumInt, h0, h1, hr, hmx, hd, hmd]
+
+theorem folded_pair {a o : Seat} (hp : PairInv a o) (hf : folding2 a o = true) :
+    (a.state = Status.folding ∧ o.state ≠ Status.folding ∧ a.spent < o.spent) ∨
+    (o.state = Status.folding ∧ a.state ≠ Status.folding ∧ o.spent < a.spent) := by
+  obtain ⟨sa, ka, ea, pa, ha⟩ := a
+  obtain ⟨so, ko, eo, po, ho⟩ := o
+  obtain ⟨h1, h2, h3, h4, h5, h6, h7, h8, h9, h10, h11, h12, h13, h14, h15, h16, h17⟩ := hp
+  simp only at *
+  cases sa <;> cases so <;> simp [folding2] at * <;> omega
+
+/-- what `GameInv` gives at the end of a hand -/
+theorem terminal_view {g : Game} (h : GameInv g) (hs : mustStop g = true) :
+    (g.s0.state = Status.folding ∧ g.s1.state ≠ Status.folding ∧ g.s0.spent < g.s1.spent) ∨
+    (g.s1.state = Status.folding ∧ g.s0.state ≠ Status.folding ∧ g.s1.spent < g.s0.spent) ∨
+    (street g = 3 ∧ g.s0.state ≠ Status.folding ∧ g.s1.state ≠ Status.folding ∧
+      g.s0.spent = g.s1.spent) := by
+  by_cases hf : isEveryoneFolding g = true
+  · rw [folding_eq] at hf
+    have := folded_pair h.pair hf
+    rcases actor_other_cases g with ⟨ha, ho⟩ | ⟨ha, ho⟩ <;> rw [ha, ho] at this
+    · rcases this with h | h
+      · exact Or.inl h
+      · exact Or.inr (Or.inl h)
+    · rcases this with h | h
+      · exact Or.inr (Or.inl h)
+      · exact Or.inl h
+  · have hf' : isEveryoneFolding g = false := by simpa using hf
+    have hs3 : street g = 3 := by
+      by_cases h3 : street g = 3
+      · exact h3
+      · unfold mustStop at hs; simp [h3, hf'] at hs
+    have hal : isEveryoneAlright g = true := by unfold mustStop at hs; simpa [hs3] using hs
+    rw [alright_eq] at hal; rw [folding_eq] at hf'
+    have := chance_pair h.pair hal hf'
+    right; right
+    rcases actor_other_cases g with ⟨ha, ho⟩ | ⟨ha, ho⟩ <;> rw [ha, ho] at this
+    · rcases this with ⟨a, b, _, d, _⟩ | ⟨a, b, d⟩ <;> exact ⟨hs3, by simp [a], by simp [b], d⟩
+    · rcases this with ⟨a, b, _, d, _⟩ | ⟨a, b, d⟩ <;> exact ⟨hs3, by simp [b], by simp [a], d.symm⟩
+
+theorem seats_view {g : Game} (h : GameInv g) :
+    PairInv g.s0 g.s1 ∧ g.pot = g.s0.spent + g.s1.spent := by
+  rcases actor_other_cases g with ⟨ha, ho⟩ | ⟨ha, ho⟩
+  · rw [← ha, ← ho]; exact ⟨h.pair, h.pot_eq⟩
+  · rw [← ha, ← ho]; exact ⟨h.pair.symm, by rw [h.pot_eq]; omega⟩
+
 end RP.Game
